@@ -241,16 +241,18 @@ package inference
 //@ ensures fresh-copy (and (is result *DeterminedVal) (fresh (as result *DeterminedVal)) (not (= (as result *DeterminedVal) nil)) (= (. (as result *DeterminedVal) Bool) (old e.Bool)))
 //@ ensures others-untouched (forall ((d *DeterminedVal)) (=> (allocated-before d) (= (deref d) (old (deref d)))))
 
+//@ -- listFresh: an edge list built entirely in this call: it shares nothing with any list that existed before
+//@ define (listFresh m) (and (not (= m nil)) (fresh m) (omOK m) (fresh m.inner) (or (isnil m.Pairs) (fresh m.Pairs))
+//@    (forall ((j Int)) (=> (omInRange m j) (fresh (omPair m j)))))
 //@ func (*UndeterminedVal).copy
 //@ prop C06 C03
-//@ requires (and (not (= e nil)) (omInv e.Implicants) (omInv e.Implicates))
+//@ requires (and (not (= e nil)) (omOK e.Implicants) (omOK e.Implicates))
 //@ modifies (obj e) (obj e.Implicates) (map e.Implicates.inner) (elems e.Implicates.Pairs) (obj (omPair e.Implicates 0))
 //@ ensures others-untouched (forall ((d *UndeterminedVal)) (=> (allocated-before d) (= (deref d) (old (deref d)))))
+//@ ensures nothing-old-touched (oldStateKept e.Implicates)
 //@ ensures fresh-copy (and (is result *UndeterminedVal) (fresh (undet result)) (not (= (undet result) nil))
-//@    (fresh (. (undet result) Implicates)) (fresh (. (undet result) Implicants))
-//@    (not (= (. (undet result) Implicates) nil)) (not (= (. (undet result) Implicants) nil))
+//@    (listFresh (. (undet result) Implicates)) (listFresh (. (undet result) Implicants))
 //@    (not (= (. (undet result) Implicates) (. (undet result) Implicants))))
-
 
 //@ -- C05/C03/C06: replay of one entry of a dependency's fact.  A determined verdict is ALWAYS handed to
 //@ -- observeSiteExplanation (that call is what reports a disagreement with what is already known - skipping it for
@@ -258,7 +260,7 @@ package inference
 //@ -- backward edge of an undetermined value is handed to observeImplication with the right orientation.
 //@ -- Values decoded from dependency facts are ASSUMED well-formed (they were exported by this same code).
 //@ func (*Engine).ObserveUpstream$2
-//@ prop C05 C03 C06
+//@ prop C05 C03 C06 C01
 //@ requires (engOK e)
 //@ assume imported-values-are-well-formed (valOK val)
 //@ modifies (map e.primitive.objPathCache) (obj e.inferredMap.mapping) (map e.inferredMap.mapping.inner) (elems e.inferredMap.mapping.Pairs) (obj (omPair e.inferredMap.mapping 0)) (obj (implOf e.inferredMap)) (map (. (implOf e.inferredMap) inner)) (elems (. (implOf e.inferredMap) Pairs)) (obj (omPair (implOf e.inferredMap) 0))
@@ -274,7 +276,7 @@ package inference
 //@ -- the closure that takes the upstream snapshot at the end of ObserveUpstream
 //@ func (*Engine).ObserveUpstream$3
 //@ prop C06 C03 C05
-//@ requires (and (not (= e nil)) (not (= e.inferredMap nil)) (not (= e.inferredMap.upstreamMapping nil)) (valOK val))
+//@ requires (and (not (= e nil)) (imOK e.inferredMap) (not (= e.inferredMap.upstreamMapping nil)) (valOK val))
 //@ modifies DeterminedVal UndeterminedVal (map e.inferredMap.upstreamMapping) (obj (implOf e.inferredMap)) (map (. (implOf e.inferredMap) inner)) (elems (. (implOf e.inferredMap) Pairs)) (obj (omPair (implOf e.inferredMap) 0))
 //@ ensures continues (= result true)
 //@ ensures snapshot-stored (mapin e.inferredMap.upstreamMapping site)
@@ -282,10 +284,18 @@ package inference
 //@    (and (= (isDet u) (isDet val)) (= (isUndet u) (isUndet val))
 //@         (=> (isDet val) (and (fresh (as u *DeterminedVal)) (= (detBool u) (detBool val))))
 //@         (=> (isUndet val) (and (fresh (undet u)) (fresh (. (undet u) Implicates)) (fresh (. (undet u) Implicants))))))
+//@ ensures map-stays-well-formed (and (imOK e.inferredMap) (= e.inferredMap (old e.inferredMap)) (= e.inferredMap.upstreamMapping (old e.inferredMap.upstreamMapping)))
+//@ ensures live-values-untouched (forall ((s primitiveSite)) (and (= (imHas e.inferredMap s) (old (imHas e.inferredMap s))) (=> (imHas e.inferredMap s) (= (imVal e.inferredMap s) (old (imVal e.inferredMap s))))))
+//@ ensures old-values-untouched (and (forall ((d *DeterminedVal)) (=> (allocated-before d) (= (deref d) (old (deref d))))) (forall ((u *UndeterminedVal)) (=> (allocated-before u) (= (deref u) (old (deref u))))))
+//@ ensures other-snapshots-kept (forall ((s primitiveSite)) (=> (not (= s site)) (and (= (up e.inferredMap s) (old (up e.inferredMap s))) (= (upVal e.inferredMap s) (old (upVal e.inferredMap s))))))
 
 //@ func (*UndeterminedVal).copy$1
-//@ inline
-//@ loop 0 invariant out-ok (and (omOK out) (fresh out))
+//@ prop C06 C03
+//@ requires (omOK s)
+//@ modifies (obj s) (map s.inner) (elems s.Pairs) (obj (omPair s 0))
+//@ ensures fresh-list (and (listFresh result) (not (= result s)))
+//@ ensures nothing-old-touched (oldStateKept s)
+//@ loop 0 invariant out-ok (and (listFresh out) (not (= out s)) (omOK s) (oldStateKept s) (<= -1 rangeindex) (< rangeindex (len s.Pairs)))
 
 //@ -- C04/C03: dependency facts are replayed in an order that is a total order on distinct packages: the comparator
 //@ -- is zero exactly for equal import paths (two facts of one run never share an import path)
@@ -397,9 +407,11 @@ package inference
 //@ -- C10: an explicit annotation is handed to the engine as a *BecauseAnnotation explanation of the right polarity
 //@ -- for exactly the annotated site (key, deep flag)
 //@ func (*Engine).ObserveAnnotations$1
-//@ prop C10
+//@ prop C10 C05
 //@ requires (engOK e)
-//@ modifies *
+//@ modifies (map e.primitive.objPathCache) (obj e.inferredMap.mapping) (map e.inferredMap.mapping.inner) (elems e.inferredMap.mapping.Pairs) (obj (omPair e.inferredMap.mapping 0)) (obj (implOf e.inferredMap)) (map (. (implOf e.inferredMap) inner)) (elems (. (implOf e.inferredMap) Pairs)) (obj (omPair (implOf e.inferredMap) 0))
+//@ ensures engine-stays-well-formed (and (engOK e) (sameEngine e))
+//@ ensures determined-kept (determinedKept e)
 //@ ensures annotation-determines-its-own-site (and (= (calls "observeSiteExplanation") 1)
 //@    (= (callarg "observeSiteExplanation" 0 1) (call |(*primitivizer).site| e.primitive key isDeep))
 //@    (ite val (is (callarg "observeSiteExplanation" 0 2) TrueBecauseAnnotation) (is (callarg "observeSiteExplanation" 0 2) FalseBecauseAnnotation)))
@@ -602,3 +614,32 @@ package inference
 //@    (forall ((s primitiveSite)) (=> (xHas exported s) (and (imHas i s) (mtrue sitesToExport s))))
 //@    (forall ((j Int)) (=> (and (<= 0 j) (<= j rangeindex) (mustExportWhole i sitesToExport (siteAt i j) (valAtIdx i j))) (and (xHas exported (siteAt i j)) (= (xVal exported (siteAt i j)) (valAtIdx i j)))))
 //@    (forall ((s primitiveSite)) (=> (xHas exported s) (not (mustNotExport i sitesToExport s (imVal i s))))))
+
+//@ -- Engine life cycle (C05/C06/C03/C10): a new engine is well-formed; every public step keeps it well-formed.
+//@ func newPrimitivizer
+//@ prop C05 C03
+//@ modifies *
+//@ ensures fresh-with-empty-path-cache (and (not (= result nil)) (fresh result) (pathCacheOK result) (= result.pass pass))
+//@ func NewEngine
+//@ prop C05 C03 C06 C10
+//@ requires (not (isnil diagnosticEngine))
+//@ modifies *
+//@ ensures new-engine-is-well-formed (and (fresh result) (engOK result) (= result.diagnosticEngine diagnosticEngine) (= result.controlledTriggersBySite nil))
+
+//@ func (*InferredMap).OrderedRange
+//@ inline
+
+//@ -- ObserveUpstream: replays every dependency fact into the map and then snapshots the map; the engine stays
+//@ -- well-formed throughout (every entry goes through the replay closure / the snapshot closure under contract).
+//@ func (*Engine).ObserveUpstream
+//@ prop C05 C03 C06
+//@ ghost dyncalls-pure
+//@ requires (and (engOK e) (not (= e.inferredMap.upstreamMapping nil)) (not (= e.pass nil)) (not (= e.pass.Pass nil)))
+//@ modifies *
+//@ ensures engine-stays-well-formed (and (engOK e) (sameEngine e))
+//@ ensures determined-kept (determinedKept e)
+//@ loop 0 invariant engine-ok (and (engOK e) (sameEngine e) (determinedKept e) (not (= e.inferredMap.upstreamMapping nil)))
+//@ loop 1 invariant engine-ok (and (engOK e) (sameEngine e) (determinedKept e) (not (= e.inferredMap.upstreamMapping nil)))
+//@ loop OrderedRange#1:0 invariant engine-ok (and (engOK e) (sameEngine e) (determinedKept e) (not (= e.inferredMap.upstreamMapping nil)))
+//@ loop OrderedRange#2:0 invariant engine-ok (and (engOK e) (sameEngine e) (determinedKept e) (not (= e.inferredMap.upstreamMapping nil)) (= i e.inferredMap)
+//@    (<= -1 rangeindex) (< rangeindex (len i.mapping.Pairs)))
